@@ -26,6 +26,9 @@ type Plan struct {
 	AfterCommit func(k int)
 	// BeforeCommit is called before commit k is applied (it may park a scheduler).
 	BeforeCommit func(k int)
+	// BeforeRead is called before every read-side operation (Get, Has, NewIterator, NewSnapshot):
+	// a preemption point at which a harness may let another party of the simulation run.
+	BeforeRead func(kind string)
 }
 
 type DB struct {
@@ -69,6 +72,9 @@ func (d *DB) readEvent() error {
 		return nil
 	}
 	d.Reads++
+	if d.Plan.BeforeRead != nil {
+		d.Plan.BeforeRead("get")
+	}
 	if d.Plan.FailReadAt != 0 && d.Reads == d.Plan.FailReadAt {
 		d.Fired = append(d.Fired, "read_error")
 		return ErrInjected
@@ -123,6 +129,9 @@ func (d *DB) NewIterator(prefix []byte, withUpperBound bool) (db.Iterator, error
 	if d.Dead {
 		return nil, ErrDead
 	}
+	if d.Plan.BeforeRead != nil && !d.Paused {
+		d.Plan.BeforeRead("iterator")
+	}
 	return d.Inner.NewIterator(prefix, withUpperBound)
 }
 
@@ -154,7 +163,12 @@ func (d *DB) NewIndexedBatchWithSize(n int) db.IndexedBatch {
 	return &ibatch{batch{d: d, b: nil}, d.Inner.NewIndexedBatchWithSize(n)}
 }
 
-func (d *DB) NewSnapshot() db.Snapshot { return d.Inner.NewSnapshot() }
+func (d *DB) NewSnapshot() db.Snapshot {
+	if d.Plan.BeforeRead != nil && !d.Paused && !d.Dead {
+		d.Plan.BeforeRead("snapshot")
+	}
+	return d.Inner.NewSnapshot()
+}
 
 // Update / Write follow the helpers of the real backends: run fn on a fresh batch, commit only
 // when fn returned nil.
